@@ -123,11 +123,16 @@ pub struct RotBucket {
     /// volume (1..=999) -> objects in that directory (sorted by key)
     pub vols: std::collections::BTreeMap<usize, Vec<Obj>>,
     pub log: Vec<(String, u16)>,
+    /// answer the n-th listing request (0-based) with a one-off 500, as S3 occasionally does
+    pub fail_at: Option<usize>,
 }
 
 impl Scope for RotBucket {
     fn handle(&mut self, req: &Req) -> Resp {
-        let resp = if req.is_list() {
+        let resp = if req.is_list() && self.fail_at == Some(self.log.len()) {
+            // alternately a server error and a reply that is not HTTP at all (a transport failure)
+            if self.log.len() % 2 == 0 { Resp::status(500) } else { Resp::broken_transport() }
+        } else if req.is_list() {
             let prefix = req.q("prefix").unwrap_or("").to_string();
             let max_keys = req.q("max-keys").and_then(|m| m.parse::<usize>().ok());
             // S3 semantics: `prefix` is a plain string prefix over the whole bucket in key order
@@ -188,7 +193,11 @@ fn check_bucket(obs: &mut Obs, newest: usize, p: usize, rng: &mut Rng, label: &s
         obs.count("buckets_with_sub_second_spacing", 1);
     }
     let vols = build_vols(&site, newest, p, t0, spacing, rng);
-    let scope = Arc::new(Mutex::new(RotBucket { site: site.clone(), vols, log: Vec::new() }));
+    // one discovery in six meets a one-off server error on one of its first listing requests; the
+    // statement says nothing about the directory reported then (an error is fine too), but if an
+    // answer is returned its call count must still be the requests really issued
+    let fail_at: Option<usize> = if rng.chance(1, 6) { Some(rng.usize_below(14)) } else { None };
+    let scope = Arc::new(Mutex::new(RotBucket { site: site.clone(), vols, log: Vec::new(), fail_at }));
     sim.register(&site, scope.clone());
     obs.case(mix(mix(151, newest as u64), p as u64));
     let replay = json!({"part": "get_latest_volume", "newest_volume": newest, "populated": p, "label": label});
@@ -206,12 +215,26 @@ fn check_bucket(obs: &mut Obs, newest: usize, p: usize, rng: &mut Rng, label: &s
                     return;
                 }
             }
+            if fail_at.map(|k| k < log.len()).unwrap_or(false) && matches!(&e, nexrad_data::result::Error::AWS(nexrad_data::result::aws::AWSError::S3ListObjectsError(_))) {
+                obs.count("discoveries_ended_by_an_injected_listing_fault", 1);
+                return;
+            }
             obs.violation("get_latest_volume fails against a well-formed bucket", format!("{e:?}"), replay)
         }
         Ok(Ok(res)) => {
+            let faults = usize::from(fail_at.map(|k| k < log.len()).unwrap_or(false));
+            if faults > 0 {
+                obs.count("discoveries_that_survived_an_injected_listing_fault", 1);
+            }
             let want = if p == 0 { None } else { Some(newest) };
             let got = res.volume.map(|v| v.as_number());
-            if got != want {
+            if faults > 0 {
+                // The statement is about bucket states, not about a server that answers one request
+                // with an error: which directory is reported then is recorded, not judged (the
+                // library reads a non-2xx listing response as an empty directory).  The call count
+                // below is judged all the same: it speaks of the requests really issued.
+                obs.count(if got == want { "faulted_discoveries_with_the_right_directory" } else { "faulted_discoveries_with_another_directory" }, 1);
+            } else if got != want {
                 let sig = if want == Some(999) {
                     "latest volume missed when the newest directory is 999"
                 } else {
@@ -229,7 +252,7 @@ fn check_bucket(obs: &mut Obs, newest: usize, p: usize, rng: &mut Rng, label: &s
                     replay.clone(),
                 );
             }
-            if lists > call_bound(999) {
+            if lists > call_bound(999) + faults {
                 obs.violation(
                     "listing requests exceed the directory count by more than a logarithmic term",
                     format!("{} requests, bound {}", lists, call_bound(999)),
@@ -287,7 +310,7 @@ fn check_history(obs: &mut Obs, rng: &mut Rng, index: u64) {
             p = 0; // the bucket was emptied (and is asked again)
         }
     }
-    let scope = Arc::new(Mutex::new(RotBucket { site: site.clone(), vols: Default::default(), log: Vec::new() }));
+    let scope = Arc::new(Mutex::new(RotBucket { site: site.clone(), vols: Default::default(), log: Vec::new(), fail_at: None }));
     sim.register(&site, scope.clone());
     let mut t0: i64 = 1_722_000_000_000 + rng.below(1_000_000_000) as i64;
     for (k, (newest, p)) in states.iter().copied().enumerate() {
